@@ -83,7 +83,11 @@ pub fn gen_cand(rng: &mut Rng, w: &World) -> Cand {
             _ => (cd::sload(U256::from(sim::SLOT_CHILD)), "sload-child"),
         }
     };
-    let (to, data, label): (Option<Address>, Vec<u8>, String) = match rng.below(if w.shapes.is_some() { 20 } else { 17 }) {
+    let (to, data, label): (Option<Address>, Vec<u8>, String) = match rng.below(if w.shapes.is_some() { 21 } else { 18 }) {
+        // a CALL whose target is the all-zero address (an account without code: succeeds with empty output;
+        // a missing `to` would be a creation, a zero `to` is not), with data that behaves differently as init code
+        17 if w.shapes.is_none() => (Some(Address::ZERO), match rng.below(3) { 0 => vec![0xfe], 1 => sim::init_reverting(), _ => sim::child_init() }, "call-zero-address".into()),
+        20 => (Some(Address::ZERO), match rng.below(3) { 0 => vec![0xfe], 1 => sim::init_reverting(), _ => sim::child_init() }, "call-zero-address".into()),
         // a creation whose runtime code is a block-environment word the property does not exclude:
         // GASLIMIT (0x45), NUMBER (0x43), COINBASE (0x41), CHAINID (0x46), BASEFEE (0x48)
         16 => (None, vec![*rng.pick(&[0x45u8, 0x43, 0x41, 0x46, 0x48]), 0x5f, 0x52, 0x60, 0x20, 0x5f, 0xf3], "create-env-word".into()),
@@ -101,6 +105,11 @@ pub fn gen_cand(rng: &mut Rng, w: &World) -> Cand {
         14 => (Some(if rng.chance(1, 2) { Hx::from_hex(sim::INVALID).to_address() } else { Address::from_slice(&[0x77; 20]) }), vec![1, 2, 3], "call-no-code".into()),
         _ => (Some(Address::from_slice(&{ let mut a = [0u8; 20]; a[19] = 2; a })), vec![0xab; 40], "call-sha256-precompile".into()),
     };
+    // a SIGNED transaction whose `to` field is the zero address is read as a contract creation by the engine
+    // (TxInfo::from_raw_transaction, an explicit rule of the glue, like brc20_deploy with empty data being a call
+    // to the invalid address): it does not have "the same target" as an eth_call to the zero address, so this
+    // candidate is only sent as an inscription call
+    let sender = if to == Some(Address::ZERO) { Sender::Pk(rng.below(4) as usize) } else { sender };
     Cand { sender, to, data, label }
 }
 
